@@ -30,6 +30,12 @@ TEXT = {
         "technique": "Lean 4 fold invariant (induction over add_frame) + byte-exact correspondence",
         "design_ref": "DESIGN.md section 3 C04",
     },
+    "C09": {
+        "level_text": "Proof. C09_subframe: for every oracle log (any LPC coefficients, any entropy estimates, however wrong), every block and every configuration, the subframe the mirrored `encode_subframe` returns reports at most 8+n*bps bits (a candidate displaces Verbatim only after its real count_bits was compared). C09_frame: for every channel count and stereo configuration the subframes of a frame total at most channels*(8+n*bps) bits (a side-channel recombination is taken only if strictly cheaper than left+right) - no slack needed. The mirrored decision logic (Model/Encode.lean) is tied to coding.rs by replaying it on the logged oracle values of every single-thread record and comparing every frame byte for byte.",
+        "level_note": "Reported size = written size is C08. The float estimator is an oracle (theorems quantify over all logs). Trusted: the hook that logs the oracle values (cfg flacenc_verif).",
+        "technique": "Lean 4 theorem over a functional model of the encoder's decision logic, universally quantified over the float oracle + byte-exact functional correspondence",
+        "design_ref": "DESIGN.md section 3 C09, section 1.1",
+    },
     "C11": {
         "level_text": "Proof. Theorems C11_word_refines / C11_byte_refines (every valid op from every invariant state, i.e. every bit offset: no panic, invariant kept, abstract bits = old ++ ideal), C11_word_run / C11_byte_run (any op sequence, unbounded), C11_sinks_agree, C11_defaults (provided trait methods expand to the same ideal bits) about a statement-by-statement model of both MemSink implementations over BitVec; model tied to src/bitsink.rs by an exhaustive (offset x width x n x op x sink) sweep plus random op sequences in both cargo profiles.",
         "level_note": "Trusted: Lean kernel; the hand-written model's fidelity is checked, not assumed (exhaustive + random differential on len, raw storage, exported bytes). Not proved in Lean: byte export (as_slice/write_to_byte_slice) = packBytes abs (compared only); little-endian target assumed for to_ne_bytes.",
